@@ -979,15 +979,12 @@ def bytes_snippet_code(kind, t):
 
 
 def bytes_cases(n, signed_target, rnd):
-    """(len, data word) pairs: every interesting length, data patterns, dirty padding; len = 0 with a dirty word only for
-    unsigned targets (the signed case is the open finding convert-empty-bytes-signed-stale, probed separately)"""
+    """(len, data word) pairs: every interesting length (0 included), data patterns, clean/dirty/stale padding"""
     out = []
     for ln in sorted({0, 1, n // 2, n - 1, n} - {-1}):
         for pat in (0x00, 0xFF, 0x80, 0x7F, None):
             data = bytes([pat]) * ln if pat is not None else bytes(rnd.randrange(256) for _ in range(ln))
             for pad in (0x00, 0xEE, 0x7F):
-                if ln == 0 and signed_target and pad >= 0x80:
-                    continue
                 dw = int.from_bytes(data + bytes([pad]) * (32 - ln), "big")
                 out.append((ln, dw))
     return out
@@ -1033,27 +1030,33 @@ def mismatching_bconverts():
 
 
 def empty_bytes_signed_probe(ctx):
-    """convert(b, intN/decimal) of an EMPTY bytestring must be 0 whatever stale bytes the variable's memory holds."""
-    src = ("@external\ndef f() -> int256:\n    b: Bytes[32] = b\"" + "\\xff" * 32 + "\"\n    b = b\"\"\n"
-           "    return convert(b, int256)\n")
+    """Permanent regression for convert-empty-bytes-signed-stale (fixed in 762c8bd): assign a long all-0xff value, then
+    the empty value, then convert to a signed type: must be 0 whatever stale bytes the variable's memory holds."""
     hit = False
-    for cfg in quick_glue_configs():
-        try:
-            out = compile_src(src, cfg, formats=("bytecode", "method_identifiers"))
-        except Exception:  # noqa
-            continue
-        chain = Chain(cfg.evm)
-        addr = chain.deploy(bytes.fromhex(out["bytecode"][2:]))
-        sel = int(list(out["method_identifiers"].values())[0], 16).to_bytes(4, "big")
-        got = call_word(chain, addr, sel)
-        if got != 0:
-            hit = True
-            ctx.violation("failing-input", "convert(empty Bytes, int256) depends on stale memory (returns -1 instead of 0)",
-                          {"source": src, "config": cfg.name, "calldata": sel.hex(), "expected": "0x0",
-                           "observed": "revert" if got == -1 else hex(got),
-                           "cause": "_bytes_to_num: sar(8*(32-len), mload(data)) with len == 0 shifts by 256 and returns the sign of "
-                                    "the stale data word; proved: bytes_convert_empty_signed_defect (PropsBytesConv.v)"},
-                          key="convert-empty-bytes-signed-stale")
+    for n, ty in ((32, "int256"), (32, "int8"), (5, "int128"), (21, "decimal")):
+        src = (f"@external\ndef f() -> {ty}:\n    b: Bytes[{n}] = b\"" + "\\xff" * n + "\"\n    b = b\"\"\n"
+               f"    return convert(b, {ty})\n")
+        for cfg in quick_glue_configs():
+            try:
+                out = compile_src(src, cfg, formats=("bytecode", "method_identifiers"))
+            except Exception:  # noqa
+                continue
+            chain = Chain(cfg.evm)
+            addr = chain.deploy(bytes.fromhex(out["bytecode"][2:]))
+            sel = int(list(out["method_identifiers"].values())[0], 16).to_bytes(4, "big")
+            got = call_word(chain, addr, sel)
+            ctx.corr["empty_bytes_probe_runs"] = ctx.corr.get("empty_bytes_probe_runs", 0) + 1
+            if got != 0:
+                hit = True
+                ctx.violation("failing-input", f"convert(empty Bytes[{n}], {ty}) depends on stale memory (must be 0)",
+                              {"source": src, "config": cfg.name, "calldata": sel.hex(), "expected": "0x0",
+                               "observed": "revert" if got == -1 else hex(got),
+                               "cause": "_bytes_to_num must zero-extend (shr) and then signextend from byte len-1 (identity for "
+                                        "len = 0); sar by 8*(32-len) = 256 returns the sign of the stale data word; "
+                                        "theorems legacy/venom_bytes_convert_empty (PropsBytesConv.v)"},
+                              key="convert-empty-bytes-signed-stale")
+                break
+        if hit:
             break
     return hit
 
